@@ -101,14 +101,9 @@ fn start_world() {
     }
     // ban-list sampler
     tokio::spawn(async move {
-        let mut last: Vec<String> = vec!["?".into()];
         loop {
             let b = crate::pgcat_api::banned_hosts();
-            if b != last {
-                let seq = simcore::log::world(|| format!("bans {:?}", b));
-                HIST.lock().ban_samples.push((seq, simcore::clock::now_us(), b.clone()));
-                last = b;
-            }
+            world::record_bans(&b);
             tokio::time::sleep(Duration::from_millis(5)).await;
         }
     });
